@@ -61,3 +61,39 @@ package backends
 //@ func (*GCSCache).buildPath(gcs, path, key) (r)
 //@   pure
 //@   ensures [function_of_prefix_ws_path_key] r == ite(gcs.prefix == "", gcs.workspacePrefix, gcs.prefix + "/" + gcs.workspacePrefix) + "/" + trimChars(path, "/") + "/" + trimChars(key, "/")
+
+// every S3 operation addresses the configured bucket (arg2) and the object name (arg3) computed by buildPath for (path, key)
+//@ func (*S3Cache).Get(s, ctx, path, key) (r, err)
+//@   pure
+//@   before_call GetObject#1 [same_namespace] arg2 == s.bucketName && arg3 == ite(s.prefix == "", s.workspacePrefix, s.prefix + "/" + s.workspacePrefix) + "/" + trimChars(path, "/") + "/" + trimChars(key, "/")
+
+//@ func (*S3Cache).Set(s, ctx, path, key, content) (err)
+//@   pure
+//@   before_call PutObject#1 [same_namespace] arg2 == s.bucketName && arg3 == ite(s.prefix == "", s.workspacePrefix, s.prefix + "/" + s.workspacePrefix) + "/" + trimChars(path, "/") + "/" + trimChars(key, "/")
+
+//@ func (*S3Cache).Exists(s, ctx, path, key) (r, err)
+//@   pure
+//@   before_call ObjectExists#1 [same_namespace] arg2 == s.bucketName && arg3 == ite(s.prefix == "", s.workspacePrefix, s.prefix + "/" + s.workspacePrefix) + "/" + trimChars(path, "/") + "/" + trimChars(key, "/")
+
+//@ func (*S3Cache).Delete(s, ctx, path, key) (err)
+//@   pure
+//@   before_call DeleteObject#1 [same_namespace] arg2 == s.bucketName && arg3 == ite(s.prefix == "", s.workspacePrefix, s.prefix + "/" + s.workspacePrefix) + "/" + trimChars(path, "/") + "/" + trimChars(key, "/")
+
+// every GCS operation addresses the configured bucket and the object name computed by buildPath for (path, key); Set
+// succeeds only if the writer was closed without error (the object is committed on Close)
+//@ func (*GCSCache).Get(gcs, ctx, path, key) (r, err)
+//@   before_call Bucket#1 [same_bucket] arg1 == gcs.bucketName
+//@   before_call Object#1 [same_object] arg1 == ite(gcs.prefix == "", gcs.workspacePrefix, gcs.prefix + "/" + gcs.workspacePrefix) + "/" + trimChars(path, "/") + "/" + trimChars(key, "/")
+
+//@ func (*GCSCache).Set(gcs, ctx, path, key, content) (err)
+//@   ensures [success_requires_committed_object] err == nil ==> has(gcsWriterClosedOK, ref(wc)) && stream[ref(wc)] == old(stream[ref(wc)]) + rcontent[ref(content)]
+//@   before_call Bucket#1 [same_bucket] arg1 == gcs.bucketName
+//@   before_call Object#1 [same_object] arg1 == ite(gcs.prefix == "", gcs.workspacePrefix, gcs.prefix + "/" + gcs.workspacePrefix) + "/" + trimChars(path, "/") + "/" + trimChars(key, "/")
+
+//@ func (*GCSCache).Delete(gcs, ctx, path, key) (err)
+//@   before_call Bucket#1 [same_bucket] arg1 == gcs.bucketName
+//@   before_call Object#1 [same_object] arg1 == ite(gcs.prefix == "", gcs.workspacePrefix, gcs.prefix + "/" + gcs.workspacePrefix) + "/" + trimChars(path, "/") + "/" + trimChars(key, "/")
+
+//@ func (*GCSCache).Exists(gcs, ctx, path, key) (r, err)
+//@   before_call Bucket#1 [same_bucket] arg1 == gcs.bucketName
+//@   before_call Object#1 [same_object] arg1 == ite(gcs.prefix == "", gcs.workspacePrefix, gcs.prefix + "/" + gcs.workspacePrefix) + "/" + trimChars(path, "/") + "/" + trimChars(key, "/")
